@@ -6,6 +6,8 @@ SPEC = dict(
     groups=[
         dict(name='sm', harness='h_sm.cpp', tus=['src/base/QXmppStreamManagement.cpp', 'src/base/QXmppUtils.cpp'], models=['qt_core.c', 'qt_dom.c'],
              instances=[I(e) for e in SM]),
+        dict(name='utils', harness='h_utils.cpp', tus=['src/base/QXmppUtils.cpp'], models=['qt_core.c', 'qt_dom.c'],
+             instances=[I(e, bound='whole value range of the integer type') for e in ['int_u8', 'int_i8', 'int_u16', 'int_i16', 'int_u32', 'int_i32', 'int_u64', 'int_i64', 'int_range', 'bool']]),
     ],
     bounds=[], assumptions=[], outside=[],
 )
